@@ -45,6 +45,7 @@ import (
 	"github.com/buzzfeed/sso/internal/pkg/sessions"
 	"github.com/buzzfeed/sso/internal/proxy"
 	c "github.com/buzzfeed/sso/internal/zz_verif/common"
+	"github.com/datadog/datadog-go/statsd"
 )
 
 const fromHost = "app.example.test"
@@ -70,6 +71,8 @@ type wconf struct {
 
 type world struct {
 	wconf
+	host     string // the upstream's `from` host
+	ownsSrv  bool
 	pw       *c.ProxyWorld
 	srv      *httptest.Server
 	backend  *hbackend
@@ -110,88 +113,128 @@ func baseConf(signer, hm, skip bool) wconf {
 }
 
 func newWorld(dir string, auth *c.FakeAuth, keyPEM string, wc wconf) *world {
-	w := &world{wconf: wc}
-	up := wc.Up
-	if up == "" {
-		up = "http"
-	}
-	w.backend = newBackend(up)
-	to, scheme := w.backend.HostPort(), ""
-	if up != "http" {
-		if wc.Via == "scheme" {
-			scheme = "https"
+	return newDeployment(dir, auth, keyPEM, []wconf{wc})[0]
+}
+
+// newDeployment boots ONE sso-proxy for a file of several upstreams, in the order given, through the
+// real configuration path (YAML file + SSO_CONFIG_* environment + SetUpstreamConfigs + proxy.New, wrapped
+// in NewLoggingHandler as cmd/sso-proxy does) and returns one world per upstream: own `from` host, own
+// backend, own options; signer key, cookie secret and listener are the deployment's.
+func newDeployment(dir string, auth *c.FakeAuth, keyPEM string, wcs []wconf) []*world {
+	var ws []*world
+	var yaml strings.Builder
+	env := map[string]string{}
+	scheme := ""
+	for i, wc := range wcs {
+		w := &world{wconf: wc, host: fromHost}
+		if len(wcs) > 1 {
+			w.host = fmt.Sprintf("up%d.example.test", i)
+		}
+		up := wc.Up
+		if up == "" {
+			up = "http"
+		}
+		w.backend = newBackend(up)
+		to := w.backend.HostPort()
+		if up != "http" {
+			if wc.Via == "scheme" {
+				scheme = "https"
+			} else {
+				to = "https://" + to
+			}
+		}
+		opts := []string{
+			"      allowed_email_domains: [\"example.com\"]",
+			"      skip_auth_regex: [\"^/open\"]",
+		}
+		if wc.Timeout != "" {
+			opts = append(opts, "      timeout: "+wc.Timeout)
 		} else {
-			to = "https://" + to
+			opts = append(opts, "      timeout: 30s")
 		}
-	}
-	opts := []string{
-		"      allowed_email_domains: [\"example.com\"]",
-		"      skip_auth_regex: [\"^/open\"]",
-	}
-	if wc.Timeout != "" {
-		opts = append(opts, "      timeout: "+wc.Timeout)
-	} else {
-		opts = append(opts, "      timeout: 30s")
-	}
-	if wc.Skip {
-		opts = append(opts, "      skip_request_signing: true")
-	}
-	if up != "http" {
-		opts = append(opts, "      tls_skip_verify: true")
-	}
-	if len(wc.Inject) > 0 {
-		opts = append(opts, "      inject_request_headers:")
-		for _, kv := range wc.Inject {
-			opts = append(opts, fmt.Sprintf("        %q: %q", kv[0], kv[1]))
+		if wc.Skip {
+			opts = append(opts, "      skip_request_signing: true")
 		}
+		if up != "http" {
+			opts = append(opts, "      tls_skip_verify: true")
+		}
+		if len(wc.Inject) > 0 {
+			opts = append(opts, "      inject_request_headers:")
+			for _, kv := range wc.Inject {
+				opts = append(opts, fmt.Sprintf("        %q: %q", kv[0], kv[1]))
+			}
+		}
+		fmt.Fprintf(&yaml, "- service: %q\n  default:\n    from: %s\n    to: %s\n    options:\n%s\n", wc.Service, w.host, to, strings.Join(opts, "\n"))
+		if wc.EnvName != "" {
+			env[wc.EnvName] = wc.Spec
+		}
+		ws = append(ws, w)
 	}
-	yaml := fmt.Sprintf("- service: %q\n  default:\n    from: %s\n    to: %s\n    options:\n%s\n", wc.Service, fromHost, to, strings.Join(opts, "\n"))
-	po := c.ProxyOpts{YAML: yaml, Valid: time.Hour, Dir: dir, Scheme: scheme}
-	if wc.Signer {
-		po.SignerKey = keyPEM
-	}
-	environ := "[]"
-	if wc.EnvName != "" {
-		po.Env = map[string]string{wc.EnvName: wc.Spec}
-		environ = c.List([]string{c.Pair(str(strings.ToUpper(wc.EnvName)), str(wc.Spec))})
-	}
+	po := c.ProxyOpts{YAML: yaml.String(), Valid: time.Hour, Dir: dir, Scheme: scheme, Env: env}
 	signer := "None"
-	if wc.Signer {
+	if wcs[0].Signer { // the signing key is the deployment's
+		po.SignerKey = keyPEM
 		signer = "(Some 1)"
 	}
-	inj := make([]string, len(wc.Inject))
-	for i, kv := range wc.Inject {
-		inj[i] = c.Pair(str(kv[0]), str(kv[1]))
+	var names []string
+	for k := range env {
+		names = append(names, k)
+	}
+	sort.Strings(names)
+	var envl []string
+	for _, k := range names {
+		envl = append(envl, c.Pair(str(strings.ToUpper(k)), str(env[k])))
 	}
 	pw, err := c.BuildProxy(po, auth)
 	cookieName := "_sso_proxy"
-	w.coq = fmt.Sprintf("{| w_signer := %s; w_algs := %s; w_service := %s; w_environ := %s; w_skip := %s; w_inject := %s; w_cookie_name := %s; w_thost := %s |}",
-		signer, strs(acceptedAlgs()), str(wc.Service), environ, c.Bool(wc.Skip), c.List(inj), str(cookieName), str(w.backend.HostPort()))
-	w.js = map[string]interface{}{"signer": wc.Signer, "skip_request_signing": wc.Skip, "service": wc.Service,
-		"env": "SSO_CONFIG_" + strings.ToUpper(wc.EnvName), "spec": wc.Spec, "inject_request_headers": wc.Inject, "note": wc.Note, "upstream": up, "https_via": wc.Via}
-	if err != nil {
-		w.startErr = err
-		return w
+	var srv *httptest.Server
+	certs := map[string]string{}
+	if err == nil {
+		lc := pw.Cfg.LoggingConfig
+		lc.Enable = true // the access log is written (to nowhere): the wrapper is part of the real path
+		sc, serr := statsd.New("127.0.0.1:8125")
+		c.Must(serr)
+		srv = httptest.NewServer(proxy.NewLoggingHandler(io.Discard, pw.Handler, lc, sc))
 	}
-	w.pw = pw
-	w.srv = httptest.NewServer(pw.Handler)
-	// the upstream verifies with the secret the deployer wrote
-	hash, herr := hmacauth.DigestNameToCryptoHash(wc.VAlg)
-	if herr != nil {
-		hash = crypto.SHA256
-	}
-	w.hm = hmacauth.NewHmacAuth(hash, []byte(wc.VKey), proxy.HMACSignatureHeader, proxy.SignatureHeaders)
-	// published keys
-	st, _, body := w.roundTrip([]byte("GET /oauth2/v1/certs HTTP/1.1\r\nHost: "+fromHost+"\r\nConnection: close\r\n\r\n"), "GET")
-	w.certs = map[string]string{}
-	if st == 200 && len(bytes.TrimSpace(body)) > 0 {
-		// a certs document that is not the documented JSON object publishes no key: the monitor then sees
-		// "kid names no published key" (an observation, not a harness error)
-		if json.Unmarshal(body, &w.certs) != nil {
-			w.certs = map[string]string{}
+	for i, w := range ws {
+		wc := w.wconf
+		inj := make([]string, len(wc.Inject))
+		for j, kv := range wc.Inject {
+			inj[j] = c.Pair(str(kv[0]), str(kv[1]))
 		}
+		up := w.backend.Mode
+		w.coq = fmt.Sprintf("{| w_signer := %s; w_algs := %s; w_service := %s; w_environ := %s; w_skip := %s; w_inject := %s; w_cookie_name := %s; w_thost := %s |}",
+			signer, strs(acceptedAlgs()), str(wc.Service), c.List(envl), c.Bool(wc.Skip), c.List(inj), str(cookieName), str(w.backend.HostPort()))
+		w.js = map[string]interface{}{"signer": wcs[0].Signer, "skip_request_signing": wc.Skip, "service": wc.Service,
+			"env": "SSO_CONFIG_" + strings.ToUpper(wc.EnvName), "spec": wc.Spec, "inject_request_headers": wc.Inject, "note": wc.Note, "upstream": up, "https_via": wc.Via}
+		if len(ws) > 1 {
+			w.js["deployment"] = fmt.Sprintf("upstream %d of %d in the file", i+1, len(ws))
+		}
+		if err != nil {
+			w.startErr = err
+			continue
+		}
+		w.pw, w.srv, w.ownsSrv = pw, srv, i == 0
+		// the upstream verifies with the secret the deployer wrote
+		hash, herr := hmacauth.DigestNameToCryptoHash(wc.VAlg)
+		if herr != nil {
+			hash = crypto.SHA256
+		}
+		w.hm = hmacauth.NewHmacAuth(hash, []byte(wc.VKey), proxy.HMACSignatureHeader, proxy.SignatureHeaders)
+		if i == 0 {
+			// published keys
+			st, _, body := w.roundTrip([]byte("GET /oauth2/v1/certs HTTP/1.1\r\nHost: "+w.host+"\r\nConnection: close\r\n\r\n"), "GET")
+			if st == 200 && len(bytes.TrimSpace(body)) > 0 {
+				// a certs document that is not the documented JSON object publishes no key: the monitor then sees
+				// "kid names no published key" (an observation, not a harness error)
+				if json.Unmarshal(body, &certs) != nil {
+					certs = map[string]string{}
+				}
+			}
+		}
+		w.certs = certs
 	}
-	return w
+	return ws
 }
 
 // cfgCase is the observation "this configuration starts / is refused".
@@ -201,7 +244,7 @@ func (w *world) cfgCase() c.Case {
 }
 
 func (w *world) close() {
-	if w.srv != nil {
+	if w.srv != nil && w.ownsSrv {
 		w.srv.Close()
 	}
 	w.backend.Srv.Close()
@@ -248,6 +291,7 @@ type spec struct {
 	Email   string
 	Token   string
 	Note    string
+	Fill    *fill  // when set, Body = Fill.bytes(): emitted to Coq as the generator term, not as a literal
 	Fault   string // upstream fault planned for this request (see backend.go plan), "" = none
 	id      string // X-Verif-Id, unique per request: the backend files what it received under it
 	sealed  string // the sealed session value used in the last raw() (a ciphertext: never enters a case)
@@ -259,7 +303,7 @@ func (w *world) session(s *spec) string {
 		ProviderSlug: "google", ProviderType: "sso",
 		AccessToken: s.Token, RefreshToken: "rt",
 		RefreshDeadline: far, LifetimeDeadline: far.Add(24 * time.Hour), ValidDeadline: far,
-		Email: s.Email, User: s.User, Groups: s.Groups, AuthorizedUpstream: fromHost,
+		Email: s.Email, User: s.User, Groups: s.Groups, AuthorizedUpstream: w.host,
 	})
 }
 
@@ -267,7 +311,7 @@ var nextID int
 
 func (w *world) raw(s *spec) []byte {
 	var b bytes.Buffer
-	fmt.Fprintf(&b, "%s %s HTTP/1.1\r\nHost: %s\r\n", s.Method, s.Target, fromHost)
+	fmt.Fprintf(&b, "%s %s HTTP/1.1\r\nHost: %s\r\n", s.Method, strings.Replace(s.Target, fromHost, w.host, 1), w.host)
 	for _, h := range s.Headers {
 		fmt.Fprintf(&b, "%s: %s\r\n", h.K, h.V)
 	}
@@ -427,6 +471,20 @@ func strs(l []string) string {
 	return c.List(parts)
 }
 
+// fill describes a long body compactly: a recognisable prefix followed by one repeated byte, N bytes in
+// all. Coq rebuilds it with Corr_C12_defs.fill, so a 256 KiB body costs no literal.
+type fill struct {
+	Prefix string
+	Byte   byte
+	N      int
+}
+
+func (f *fill) bytes() []byte {
+	b := bytes.Repeat([]byte{f.Byte}, f.N)
+	copy(b, f.Prefix)
+	return b
+}
+
 // flight is one request on its way: the bytes sent, the request as net/http parses them, the status.
 type flight struct {
 	s      *spec
@@ -573,7 +631,15 @@ func (w *world) emit(f *flight) []c.Case {
 			optBool(vRSA), c.Bool(kidOK), c.N(int(res)))
 		if long {
 			// a long body is written once and named; every place whose bytes equal it refers to the name
-			coq = "(let b := " + str(string(s.Body)) + " in " + coq + ")"
+			lit := str(string(s.Body))
+			if s.Fill != nil && bytes.Equal(s.Body, s.Fill.bytes()) {
+				p := s.Fill.Prefix
+				if len(p) > s.Fill.N {
+					p = p[:s.Fill.N]
+				}
+				lit = fmt.Sprintf("(fill %s %d %d)", str(p), s.Fill.Byte, s.Fill.N)
+			}
+			coq = "(let b := " + lit + " in " + coq + ")"
 		}
 		out = append(out, c.Case{Coq: coq, JSON: js})
 	}
@@ -597,7 +663,11 @@ var valuePool = []string{"x", "text/plain; charset=utf-8", "Bearer abc.def", "a,
 var uncovered = []string{"X-Custom", "Accept", "X-Request-Id", "User-Agent", "X-Forwarded-For", "X-Forwarded-Host", "Te", "Keep-Alive", "Sso-Signature", "Gap-Signature", "Kid"}
 var methods = []string{"GET", "GET", "POST", "POST", "PUT", "PATCH", "DELETE", "HEAD", "OPTIONS", "PURGE"}
 var pathPool = []string{"/", "/a", "/a/b", "/a%2Fb", "/a%3Fb", "/a%23b", "/a+b", "/a%2Bb", "/\xc3\xa9", "/%C3%A9/%E2%82%AC", "/a;b", "/a%20b",
-	"/a%0Ab", "/a:b@c", "/a/", "/a.b/~c", "/%41", "/a%25b", "/a&b=c", "/a'(b)*!", "/a%7Cb|c", "/x/y/z.json"}
+	"/a%0Ab", "/a:b@c", "/a/", "/a.b/~c", "/%41", "/a%25b", "/a&b=c", "/a'(b)*!", "/a%7Cb|c", "/x/y/z.json",
+	// unusual but legal: percent-encoded dot segments (the router cleans the path as written, these survive
+	// into the decoded path), encoded slashes next to dots, empty-looking segments, a long path
+	"/a/%2e%2e/b", "/%2e%2e/x", "/a/%2E/b", "/a/b/%2e%2e", "/a/.%2e/b", "/a/%2e%2e%2fb", "/..%2fx", "/a%2f..%2fb", "/a/%2e%2e;v=1/b", "/a/%2e%2e/%2e%2e/%2e%2e/etc",
+	"/%20/a", "/a/%2f/b", "/" + strings.Repeat("long-segment/", 150) + "end"}
 var dirtyPaths = []string{"//a", "/a/../b", "/a/./b", "/a//b"}
 var queryPool = []string{"", "", "a=1", "a=1&b=2", "a=%26&b=%3D", "x=1;y=2", "%zz", "a=1?b=2", "a=#b", "a=\xc3\xa9", "a+b=c+d", "a=%0A", "&&", "=", "a"}
 var connPool = []string{"close", "keep-alive", "X-Custom", "x-custom, accept", "Keep-Alive", "foo bar", ",,", "TE"}
@@ -896,10 +966,11 @@ func (w *world) overlap(r *c.Rng, sizes []int, expect bool, gomax1 bool) []c.Cas
 		s := baseSpec(fmt.Sprintf("overlap %d/%d, %d bytes, expect=%v, GOMAXPROCS(1)=%v", i+1, len(sizes), n, expect, gomax1),
 			r.Pick([]string{"POST", "PUT", "PATCH"}), fmt.Sprintf("/ov/%d", i), hdr{"Content-Type", "application/octet-stream"})
 		s.Mode = "sized"
-		s.Body = bytes.Repeat([]byte{byte('A' + i)}, n)
+		s.Fill = &fill{Byte: byte('A' + i), N: n}
 		if n > 8 { // distinct, recognisable contents
-			copy(s.Body, []byte(fmt.Sprintf("<%d:%d>", i, r.Intn(1000000))))
+			s.Fill.Prefix = fmt.Sprintf("<%d:%d>", i, r.Intn(1000000))
 		}
+		s.Body = s.Fill.bytes()
 		if i == 0 && expect {
 			s.Headers = append(s.Headers, hdr{"Expect", "100-continue"})
 		}
@@ -934,6 +1005,46 @@ func (w *world) overlap(r *c.Rng, sizes []int, expect bool, gomax1 bool) []c.Cas
 	var cases []c.Case
 	for _, f := range fl {
 		cases = append(cases, w.emit(f)...)
+	}
+	return cases
+}
+
+// ---------------------------------------------------------------- concurrent load
+
+// storm signs many requests AT THE SAME TIME in one proxy instance: [clients] goroutines each send [per]
+// requests with distinct long bodies (the time a request spends being hashed and signed grows with its
+// body). Nothing is assumed about the interleaving; every request is judged on its own by the unchanged
+// monitor (own body, own signatures), so timing can hide a defect but cannot raise a false alarm.
+func (w *world) storm(r *c.Rng, clients, per, size int) []c.Case {
+	var fl [][]*flight
+	for i := 0; i < clients; i++ {
+		var l []*flight
+		for j := 0; j < per; j++ {
+			s := baseSpec(fmt.Sprintf("storm: client %d of %d, request %d of %d, %d bytes", i+1, clients, j+1, per, size),
+				r.Pick([]string{"PUT", "POST"}), fmt.Sprintf("/storm/%d/%d?n=%d", i, j, r.Intn(1000)), hdr{"Content-Type", "application/octet-stream"})
+			s.Mode = "sized"
+			s.Fill = &fill{Prefix: fmt.Sprintf("<client %d request %d nonce %d>", i, j, r.Intn(1000000)), Byte: byte('a' + (i*per+j)%26), N: size}
+			s.Body = s.Fill.bytes()
+			l = append(l, w.prep(s))
+		}
+		fl = append(fl, l)
+	}
+	var wg sync.WaitGroup
+	for _, l := range fl {
+		wg.Add(1)
+		go func(l []*flight) {
+			defer wg.Done()
+			for _, f := range l {
+				w.send(f)
+			}
+		}(l)
+	}
+	wg.Wait()
+	var cases []c.Case
+	for _, l := range fl {
+		for _, f := range l {
+			cases = append(cases, w.emit(f)...)
+		}
 	}
 	return cases
 }
@@ -1077,6 +1188,27 @@ func main() {
 	swc := baseConf(true, true, false)
 	swc.Timeout, swc.Note = "1s", "timeout: 1s"
 	slowWorld := build(swc)
+	// deployments of SEVERAL upstreams in one file, in both orders: a skip_request_signing upstream before and
+	// after signing ones, HMAC keys of some services only, injection in one; every upstream is exercised
+	ka := wconf{Signer: true, Skip: true, Service: "alpha", EnvName: "ALPHA_SIGNING_KEY", Spec: "sha256:alpha-Secret", VAlg: "sha256", VKey: "alpha-Secret", Note: "multi-upstream: skip_request_signing"}
+	kb := wconf{Signer: true, Service: "beta", EnvName: "BETA_SIGNING_KEY", Spec: "sha1:Beta+Key/=", VAlg: "sha1", VKey: "Beta+Key/=", Note: "multi-upstream: signer + HMAC"}
+	kc := wconf{Signer: true, Service: "gamma", Note: "multi-upstream: signer only"}
+	kd := wconf{Signer: true, Service: "delta svc", EnvName: "DELTA_SVC_SIGNING_KEY", Spec: "sha512:D", VAlg: "sha512", VKey: "D", Inject: injectSets[0], Note: "multi-upstream: signer + HMAC + inject"}
+	var depWorlds []*world
+	for _, order := range [][]wconf{{ka, kb, kc}, {kc, kb, ka}, {kd, ka, kb, kc}, {kb, kd}} {
+		ws := newDeployment(dir, auth, key, order)
+		for _, w := range ws {
+			all = append(all, w)
+			cases = append(cases, w.cfgCase())
+		}
+		depWorlds = append(depWorlds, ws...)
+	}
+	off := func(wc wconf) wconf { wc.Signer = false; return wc }
+	for _, w := range newDeployment(dir, auth, key, []wconf{off(ka), off(kb), off(kc)}) { // no RSA signer at all
+		all = append(all, w)
+		cases = append(cases, w.cfgCase())
+		depWorlds = append(depWorlds, w)
+	}
 	// worlds over the signing-key grammar (some are refused at start: an observation too)
 	nKey := 10
 	if thorough {
@@ -1115,6 +1247,26 @@ func main() {
 	for _, w := range keyWorlds {
 		cases = append(append(cases, w.run(corp[0])...), w.run(corp[1])...)
 	}
+	// every upstream of every multi-upstream deployment
+	for _, w := range depWorlds {
+		cases = append(append(cases, w.run(corp[0])...), w.run(corp[1])...)
+		s := baseSpec("multi-upstream: chunked PUT", "PUT", "/m/doc?v=2", hdr{"Authorization", "Bearer abc"})
+		s.Mode, s.Body, s.Chunks, s.Cookies = "chunked", []byte("{\"doc\":true}"), 2, []string{"a=1; @S; b=2"}
+		cases = append(cases, w.run(s)...)
+	}
+	// from here on the process runs in a zone east of UTC (sealed deadlines are instants; nothing may depend
+	// on the zone they are rendered in)
+	time.Local = time.FixedZone("UTC+9", 9*3600)
+	// concurrent load: many requests with long bodies signed at the same time
+	stormSize, stormClients, stormPer := 131072, 16, 3
+	if thorough {
+		stormPer = 8
+	}
+	// (their cases are long to evaluate; they are woven into the generated ones below so that they spread over the shards)
+	var stormCases []c.Case
+	stormCases = append(stormCases, worlds[2].storm(r, stormClients, stormPer, stormSize)...)
+	stormCases = append(stormCases, worlds[0].storm(r, stormClients, (stormPer+1)/2, stormSize)...)
+	stormCases = append(stormCases, depWorlds[1].storm(r, 6, (stormPer+1)/2, 65536)...)
 	// upstream transport: 0-4 cookies left after the session cookie is stripped (one or several Cookie lines),
 	// multi-valued covered headers, bodies sized / chunked / Expect: 100-continue — against every https / h2
 	// upstream and, for parity, the plain-http base world
@@ -1197,8 +1349,10 @@ func main() {
 			w = worlds[r.Intn(len(worlds))]
 		case x < 0.80:
 			w = injWorlds[r.Intn(len(injWorlds))]
-		case x < 0.92:
+		case x < 0.88:
 			w = tlsWorlds[r.Intn(len(tlsWorlds))]
+		case x < 0.94:
+			w = depWorlds[r.Intn(len(depWorlds))]
 		default:
 			w = worlds[0]
 			if len(keyWorlds) > 0 {
@@ -1206,7 +1360,16 @@ func main() {
 			}
 		}
 		cases = append(cases, w.run(s)...)
+		if every := a.N/(len(stormCases)+1) + 1; i%every == 0 && len(stormCases) > 0 {
+			k := len(stormCases) / (1 + (a.N-i)/every)
+			if k < 1 {
+				k = 1
+			}
+			cases = append(cases, stormCases[:k]...)
+			stormCases = stormCases[k:]
+		}
 	}
+	cases = append(cases, stormCases...)
 	c.Must(c.WriteShards(a.Out, "Corr_C12", cases, a.Shard))
 	fmt.Printf("cases=%d\n", len(cases))
 }
